@@ -196,6 +196,18 @@ def change_for_step(repo: Repo, chk: Check) -> None:
             f"new trip count uses an unguarded floor division {unsafe}: iterations are lost when ub is not a multiple of step",
             s.fact_texts,
         )
+        # index values are 64-bit integers: `ub / step` is a float quotient, rounded to 53 bits before any ceil()
+        true_divs = [ast.unparse(n)[:60] for n in ast.walk(ub) if isinstance(n, ast.BinOp) and isinstance(n.op, ast.Div)] + [
+            ast.unparse(n)[:60] for n in ast.walk(ub) if isinstance(n, ast.Call) and callee_name(n) == "float"]
+        chk.result(
+            not true_divs,
+            "C17.trip-count",
+            f"{f.key}:new-ub-exact",
+            s.where(),
+            "the new trip count is computed in integer arithmetic",
+            f"the new trip count goes through a floating-point quotient {true_divs}: for bounds from 2**53 on the quotient is rounded and the last iteration(s) "
+            "are dropped (ub = 2**53 + 1, step 2)",
+        )
         chk.result(
             depends_on(ub, "$op.ub", binds={"op": op}) and depends_on(ub, "$op.step", binds={"op": op}),
             "C17.trip-count",
